@@ -54,3 +54,13 @@ Theorem C14_src_label_inside : forall (s : str) (e : ParseError),
               gen_ParseError_complete_offset e = Ret o.
 Proof. exact gen_parse_error_label_inside. Qed.
 Print Assumptions C14_src_label_inside.
+
+From JP Require Import Generated.ScanConv Proofs.GenEquivConv.
+
+(* PointerBuf::parse, re-translated: it accepts exactly the valid texts, and on failure its report holds the parser's own error
+   (the one the theorems above describe) together with the ORIGINAL string, unchanged *)
+Theorem C14_src_bufparse_report_keeps_error_and_input : forall s : str,
+  (valid_ptr s = true -> gen_PointerBuf_parse s = Ret (Ok s)) /\
+  (valid_ptr s = false -> exists e, gen_validate s = Ret (Err e) /\ gen_PointerBuf_parse s = Ret (Err (mk_RichParseError e s))).
+Proof. exact gen_bufparse_report. Qed.
+Print Assumptions C14_src_bufparse_report_keeps_error_and_input.
